@@ -3,7 +3,7 @@ from __future__ import annotations
 
 from typing import List, Tuple
 
-from .. import cstruct, sym
+from .. import render, cstruct, sym
 from ..model import AnalysisError, Repo
 from ..report import Run
 from ..sym import T, const, param
@@ -85,8 +85,60 @@ def pops_in(t: T, event: T) -> List[str]:
     return out
 
 
+def check_optional_keys(repo: Repo, run: Run, interp) -> None:
+    """R7 (a key that is optional somewhere is optional everywhere): in the functions that decode a raw log record and its
+    decomposed message, a dict key whose presence is tested on one path (`'or' in arg`) may be absent, so every read
+    `arg['or']` of that key from that dict needs the test (or a try / .get) on its own path.  Checking on one path and
+    reading unconditionally on another is a contradiction in the code itself - one of the two is wrong."""
+    from .. import guards
+    mod = repo.module("os_log_event")
+    ci = repo.cls("os_log_event", "OsLogEvent")
+    units = [(ci, m) for m in ci.methods.values() if m.name.startswith(("from_raw", "parse_"))] + \
+        [(None, f) for f in mod.functions.values()]
+    n_tested = 0
+    for cls, fn in units:
+        rec = interp.run(mod, fn, self_cls=cls)
+        if rec.notes:
+            continue
+        conds = [c for p in rec.pops for c, _ in p.pc] + [c for e in rec.effects for c, _ in e.pc] + \
+            [c for r in rec.returns for c, _ in r.pc] + [c for c_ in rec.calls for c, _ in c_.pc]
+        for r in rec.returns:
+            conds.extend(x.a[0] for x in sym.walk(r.value) if x.op == "ite")
+        tested = set()
+        for c in conds:
+            for x in sym.walk(c):
+                if x.op == "cmp" and x.a[0] in ("in", "not in") and x.a[1].op == "const" and isinstance(x.a[1].a[0], str):
+                    tested.add((x.a[1], x.a[2]))
+        n_tested += len(tested)
+        qn = f"{cls.name}.{fn.name}" if cls else fn.name
+        reads = [p for p in rec.pops if p.kind == "sub" and p.func.endswith(fn.name)]
+        for e in rec.effects:
+            if e.kind == "mut-call" and e.key == "pop" and len(e.args) == 1 and e.func.endswith(fn.name):
+                reads.append(sym.POp("sub", e.base, e.args[0], e.pc, e.loops, e.trys, e.seq, e.func, e.lineno, e.col, e.path))
+        seen = set()
+        for p in reads:
+            hit = next(((k, d) for k, d in tested if k == p.key and d in (p.base, p.path)), None)
+            if hit is None or (p.key, p.base, p.lineno) in seen:
+                continue
+            seen.add((p.key, p.base, p.lineno))
+            why = guards.member_guarded(p, rec)
+            if why is None:
+                a = guards.assumptions(p.pc)
+                if render.assume_lookup(a, T("cmp", ("in", p.key, hit[1]))) is True:
+                    why = "membership tested on the path"
+            run.ob("R7", mod.name, qn, f"optional key {p.key.a[0]!r} of {sym.pretty(p.base)[:30]} read at line {p.lineno}", why is not None,
+                   "" if why is not None else
+                   f"{qn} tests `{p.key.a[0]!r} in {sym.pretty(hit[1])[:30]}` on one path but reads [{p.key.a[0]!r}] at line {p.lineno} on a "
+                   f"path without that test ({[sym.pretty(c)[:40] + ('' if v else ' is false') for c, v in p.pc][:3]}): a record without "
+                   f"the key raises KeyError",
+                   facts={"discharged_by": why}, line=p.lineno,
+                   witness=None if why is not None else f"a log record / decomposed-message segment without the key {p.key.a[0]!r}")
+    run.floor("R7", "(key, dict) pairs whose presence is tested", n_tested, 30)
+
+
 def check(repo: Repo, run: Run) -> None:
     interp = sym.Interp(repo)
+    check_optional_keys(repo, run, interp)
     mod = repo.module("os_log_event")
     ci = repo.cls("os_log_event", "OsLogEvent")
     fn = repo.method("os_log_event", "OsLogEvent", "from_raw_log_event")
